@@ -14,7 +14,7 @@
                               (junk, every 1-bit corruption, short and empty strings included)
      wf_ctrl c            :=  NoDup (map p_id c)   (controller.pairings is a dict keyed by id) *)
 From Coq Require Import List NArith ZArith Arith Bool Lia Sorted.
-From AHK Require Import Lib.ByteStr Model.Bcast Proofs.Bcast Proofs.BcastHist Proofs.BcastTop.
+From AHK Require Import Lib.ByteStr Model.Bcast Proofs.Bcast Proofs.BcastHist Proofs.BcastTop Proofs.BcastOps.
 Import ListNotations.
 Open Scope N_scope.
 
@@ -114,6 +114,76 @@ Theorem bcast_inner_mismatch_ignored : forall c hdr k m a pt c' o cl j p,
   nth_error c' j = Some p /\ calls_for (p_id p) cl = [].
 Proof. exact top_inner_mismatch_ignored. Qed.
 
+(* ---- the state number is tracked in two places and has other writers -------------
+   p_sn = description.state_num (what the theorems above call "stored"), p_psn =
+   the persisted copy.  Operations (Model/Bcast.v): OAdv (any advertisement),
+   OPopulate (connection reads the accessory's GSN: description only), OUpdate
+   (_update_state_num: both copies), OPlain (regular advertisement), ORestart. *)
+
+(* _async_notification neither reads nor writes the persisted copy: its decision and
+   its listener calls are the same whatever that copy holds, and it leaves it alone *)
+Theorem bcast_persisted_copy_irrelevant : forall p x a body,
+  notify (with_psn p x) a body =
+  let '(p', o, cl) := notify p a body in (with_psn p' x, o, cl).
+Proof. exact (notify_psn_irrelevant 98). Qed.
+
+Theorem bcast_persisted_copy_unchanged : forall p a body p' o cl,
+  notify p a body = (p', o, cl) -> p_psn p' = p_psn p.
+Proof. exact (notify_psn_unchanged 98). Qed.
+
+(* each of the other routes leaves its number in the copy the freshness test reads *)
+Theorem bcast_other_routes_set_stored : forall c j p i n o,
+  wf_ctrl c -> nth_error c j = Some p -> p_id p = i -> p_sn p <> None ->
+  o = OPopulate i n \/ o = OUpdate i n \/ o = OPlain i n ->
+  sn_at (fst (fst (apply c o))) j = Some n.
+Proof. exact (op_sets 98). Qed.
+
+(* Over any history of operations that is forward for pairing j (numbers written by the
+   other routes do not go back; a restart finds the persisted copy in step), the number
+   pairing j knows never decreases ... *)
+Theorem bcast_ops_monotone : forall c h j p,
+  wf_ctrl c -> fwd_hist 98 c j h -> nth_error c j = Some p ->
+  exists q, nth_error (final_ops c h) j = Some q /\
+            p_id q = p_id p /\ p_key q = p_key p /\ p_chars q = p_chars p /\ sn_le (p_sn p) (p_sn q).
+Proof. exact (final_ops_j 98). Qed.
+
+(* ... hence a number learned by ANY route (accepted broadcast, connection, poll,
+   advertisement) is never undercut: afterwards a notification sealed with a counter
+   <= it is ignored, whatever its key, AAD and content. *)
+Theorem bcast_no_replay_ops : forall c h j p s hdr k m a pt,
+  wf_ctrl c -> nth_error c j = Some p -> p_sn p = Some s ->
+  fwd_hist 98 c j h -> m <= s ->
+  let c2 := final_ops c h in
+  let r := detect c2 (hdr, PSeal k m a pt) in
+  sn_at (fst (fst r)) j = sn_at c2 j /\ calls_for (p_id p) (snd r) = [].
+Proof. exact (ops_no_replay 98). Qed.
+
+(* the scenario: S+1 accepted, a connection reports S+6 (persisted copy still S), the old
+   S+3 is ignored, S+7 accepted *)
+Example c18_populate_then_old_ignored :
+  let seal n := ([17;54;1;2;3;4;5;6], PSeal 7 n [1;2;3;4;5;6] [n;0;11;0;42;0;0;0;0;0;0;0]) in
+  let '(c1, o1, _) := apply [obs2_p] (OAdv (seal 11)) in
+  let '(c2, _, _) := apply c1 (OPopulate [1;2;3;4;5;6] 16) in
+  let '(c3, o3, cl3) := apply c2 (OAdv (seal 13)) in
+  let '(c4, o4, cl4) := apply c3 (OAdv (seal 17)) in
+  o1 = OAccepted /\ map p_sn c2 = [Some 16] /\ map p_psn c2 = [Some 10] /\
+  (o3, cl3, map p_sn c3) = (ONoDecrypt, [], [Some 16]) /\
+  (o4, map p_sn c4) = (OAccepted, [Some 17]).
+Proof. exact populate_then_old_ignored. Qed.
+
+(* Observation outside the forward histories: an accepted broadcast does not advance the
+   persisted copy, so after a restart the same advertisement is accepted again. *)
+Example c18_restart_replay_observation :
+  let '(c1, o1, cl1) := apply [obs2_p] (OAdv obs2_f) in
+  let '(c2, o2, cl2) := apply c1 (OAdv obs2_f) in
+  let '(c3, _, _) := apply c2 ORestart in
+  let '(c4, o4, cl4) := apply c3 (OAdv obs2_f) in
+  (o1, cl1, map p_sn c1, map p_psn c1) = (OAccepted, [([1;2;3;4;5;6], 1, 11, VInt 42)], [Some 11], [Some 10]) /\
+  (o2, cl2) = (OStale, []) /\
+  map p_sn c3 = [Some 10] /\
+  (o4, cl4) = (OAccepted, [([1;2;3;4;5;6], 1, 11, VInt 42)]).
+Proof. exact restart_replay. Qed.
+
 (* non-vacuity: two pairings; a genuine +2 notification for the first is fresh, is
    accepted with (1, 11) |-> 513, and its replay / wrong-key / wrong-id / older variants
    are ignored; numbers adopted over a longer history are [9; 108] (208 is beyond the window) *)
@@ -152,3 +222,8 @@ Print Assumptions bcast_older_is_old.
 Print Assumptions bcast_stale_ignored.
 Print Assumptions bcast_forgery_ignored.
 Print Assumptions bcast_inner_mismatch_ignored.
+Print Assumptions bcast_persisted_copy_irrelevant.
+Print Assumptions bcast_persisted_copy_unchanged.
+Print Assumptions bcast_other_routes_set_stored.
+Print Assumptions bcast_ops_monotone.
+Print Assumptions bcast_no_replay_ops.
